@@ -117,6 +117,37 @@ func vC08Inputs(r *rand.Rand, docs []vDoc, n int, maxLen int) [][]byte {
 		}
 		words := strings.Fields(string(d.raw))
 		var sb strings.Builder
+		if len(out)%5 == 4 {
+			// a short license after more than a buffer of multi-byte text, cut inside a
+			// letter of its last word: what the read buffer still holds from the previous
+			// chunk at the place where the input ends is a continuation byte
+			if len(d.raw) > 900 {
+				continue2 := false
+				for tries := 0; tries < 200; tries++ {
+					d = docs[r.Intn(len(docs))]
+					if len(d.raw) <= 900 && len(d.raw) >= 200 {
+						continue2 = true
+						break
+					}
+				}
+				if !continue2 {
+					continue
+				}
+				words = strings.Fields(string(d.raw))
+			}
+			unit := []string{"漢字 ", "é ", "😀 ", "漢é字 "}[r.Intn(4)]
+			for sb.Len() < 1100+r.Intn(600) {
+				sb.WriteString(unit)
+				if r.Intn(12) == 0 {
+					sb.WriteByte('\n')
+				}
+			}
+			sb.WriteByte('\n')
+			text := sb.String() + strings.Join(words, " ")
+			text = strings.TrimRight(text, " \n.") + []string{"\xc3", "\xe6\xbc", "\xe6", "\xf0\x9f"}[r.Intn(4)]
+			out = append(out, []byte(text))
+			continue
+		}
 		// every other input starts directly with the license text: whatever the
 		// tokenizer loses or garbles at the very beginning of the stream then shows in
 		// the result (an unknown word in front would absorb it)
